@@ -79,7 +79,7 @@ func oracleFast(probes [][]byte) Oracle {
 		if d := diffPairs(idxD, walkD); d != "" {
 			return viol("fast", "descending MutableTree.Iterator vs tree walk: %s", d)
 		}
-		for _, ver := range m.Versions() {
+		for _, ver := range m.VersionsDesc() {
 			imm, err := t.GetImmutable(ver)
 			if err != nil {
 				return viol("fast", "GetImmutable(%d): %v", ver, err)
